@@ -493,6 +493,23 @@ fn gen_handmade(r: &mut Rng, kind: u64) -> Option<ObjectFile> {
     }
 }
 
+/// Objects with a run of 65536 or more words of one kind.  No public API produces them (both file
+/// formats store a block length in 16 bits, the assembler refuses blocks that wrap); they are built
+/// through the `verif_from_blocks` hook and used for the correspondence with the model only: the
+/// loader's behaviour there (`chunk.len() as u16`) is modelled, not specified by C29.
+fn gen_giant(r: &mut Rng, kind: u64) -> ObjectFile {
+    let start = pick_addr(r);
+    let ws: Vec<Option<u16>> = match kind {
+        0 => vec![None; 65536],                                              // clears nothing
+        1 => { let mut v = vec![None; 65536 + 1 + r.below(300) as usize]; v.push(Some(r.u16())); v } // clears len mod 2^16 words
+        2 => { let mut v = vec![Some(7); 3]; v.extend(vec![None; 2 * 65536 + r.below(50) as usize]); v.extend([Some(1), Some(2)]); v }
+        3 => vec![Some(r.u16()); 65536],                                     // slice length mismatch: panic
+        4 => { let mut v = vec![None; 5]; v.extend(vec![Some(9); 65536 + r.below(100) as usize]); v } // panic
+        _ => { let mut v = vec![None; 65535]; v.push(Some(1)); v.extend(vec![None; 65535]); v }       // long but every run is short
+    };
+    ObjectFile::verif_from_blocks(vec![(start, ws)])
+}
+
 /// C29 on the implementation: the load changed exactly what the file describes.
 /// `before` is a full snapshot; the expected memory is recomputed from `addr_iter()` word by word.
 fn check_load(ctx: &Ctx, obj: &ObjectFile, before: &Snap, after: &Snap, res_ok: bool, what: &str, replay: &str) {
@@ -517,7 +534,7 @@ fn check_load(ctx: &Ctx, obj: &ObjectFile, before: &Snap, after: &Snap, res_ok: 
     if before.mcr != after.mcr { ctx.fail("C29", "load_changed_registers", format!("{what}: the load changed MCR"), replay.into()); }
 }
 
-fn do_load_case(ctx: &Ctx, shard: usize, m: &mut Machine, fill: u16, srd: &[(u16, PList)], obj: &ObjectFile, what: &str) -> bool {
+fn do_load_case(ctx: &Ctx, shard: usize, m: &mut Machine, fill: u16, srd: &[(u16, PList)], obj: &ObjectFile, what: &str, oracle: bool) -> bool {
     let state = t_state_now(m, fill, srd);
     let input = L(vec![state, t_blocks(obj), b(has_external(obj))]);
     let replay = format!("sim.load\t{}", cut(&input.to_string(), 20000));
@@ -526,12 +543,12 @@ fn do_load_case(ctx: &Ctx, shard: usize, m: &mut Machine, fill: u16, srd: &[(u16
     let res = catch(|| sim.load_obj_file(obj).is_ok());
     let out = match res {
         None => {
-            ctx.fail("C29", "load_panics", format!("{what}: load_obj_file panics at {}", crate::LAST_PANIC.with(|p| p.borrow().clone())), replay.clone());
+            if oracle { ctx.fail("C29", "load_panics", format!("{what}: load_obj_file panics at {}", crate::LAST_PANIC.with(|p| p.borrow().clone())), replay.clone()); }
             panic()
         }
         Some(okk) => {
             let after = snap(&m.sim);
-            check_load(ctx, obj, &before, &after, okk, what, &replay);
+            if oracle { check_load(ctx, obj, &before, &after, okk, what, &replay); }
             if okk {
                 let mut d = vec![];
                 for a in 0..=u16::MAX as usize { if before.mem[a] != after.mem[a] { d.push(L(vec![iu(a), i(after.mem[a].0), i(after.mem[a].1)])); } }
@@ -610,7 +627,7 @@ fn run_load(ctx: &Ctx) {
             if mode >= 2 { let s = 1 + r.below(40) as usize; run_some_steps(&mut m, &mut r, s); after_exec.fetch_add(1, Relaxed); }
             (m, st.fill, st.sr_defns.clone())
         };
-        let loaded = do_load_case(ctx, k, &mut m, fill, &srd, &obj, &what);
+        let loaded = do_load_case(ctx, k, &mut m, fill, &srd, &obj, &what, true);
         // a second load on top (the same file again, or another one), sometimes after more execution
         if loaded && r.chance(1, 2) {
             if r.chance(1, 2) { let s = r.below(20) as usize; run_some_steps(&mut m, &mut r, s); }
@@ -619,9 +636,22 @@ fn run_load(ctx: &Ctx) {
                 parse_ast(&p.src).ok().and_then(|a| assemble(a).ok())
             };
             reloads.fetch_add(1, Relaxed);
-            do_load_case(ctx, k, &mut m, fill, &srd, again.as_ref().unwrap_or(&obj), "second load");
+            do_load_case(ctx, k, &mut m, fill, &srd, again.as_ref().unwrap_or(&obj), "second load", true);
         }
     });
+    // runs of 65536+ words (hook-built, correspondence only)
+    let ng = ctx.n(6, 36) as usize;
+    par_for(ng, |k| {
+        let mut r = root.fork(0x6000 + k as u64);
+        let obj = gen_giant(&mut r, k as u64 % 6);
+        let fill = r.u16();
+        let mut m = bare_machine(Simulator::new(SimFlags { machine_init: MachineInitStrategy::Known { value: fill }, ..Default::default() }));
+        // something to clear: initialised words around the start of the block
+        let s0 = obj.verif_blocks()[0].0;
+        for d in 0..400u16 { m.sim.mem[s0.wrapping_add(d)] = word((d, 0xFFFF)); }
+        do_load_case(ctx, k, &mut m, fill, &[], &obj, "giant run", false);
+    });
+    ctx.stat("load.giant_runs", ng as i64);
     // other initialisation strategies: direct oracle only (the model's filler is a Known value)
     let mut r = root.fork(0);
     for k in 0..ctx.n(30, 300) {
